@@ -151,10 +151,25 @@ def _install_crash():
         c.die_if_pending()
         return r
 
+    real_replace = os.replace
+    real_rename = os.rename
+
+    def renamer(real):
+        @functools.wraps(real)
+        def rename(src, dst, *a, **kw):
+            # a file that gets its final name (the complete-then-rename idiom): the destination is what a resumed run looks at
+            c.hit("rename", dst)
+            r = real(src, dst, *a, **kw)
+            c.die_if_pending()
+            return r
+        return rename
+
     builtins.open = open_
     gzip.open = gzip_open
     os.remove = remove
     os.unlink = remove
+    os.replace = renamer(real_replace)
+    os.rename = renamer(real_rename)
 
     if _CFG.get("crash_lines"):
         # source-free failpoints: 'line' events inside the repository's own code are counted (main process, main thread); the process
@@ -303,10 +318,28 @@ def _install_cache():
                 time.sleep(rng.random() * maxd)
         return real_makedirs(name, *a, **kw)
 
+    real_remove_ = os.remove
+
+    @functools.wraps(real_remove_)
+    def remove_(path, *a, **kw):
+        # a file of the per-user folder that is REMOVED (e.g. to make room for its new version): pre-empted right after it is gone
+        r = real_remove_(path, *a, **kw)
+        try:
+            p = os.path.abspath(os.fspath(path))
+        except TypeError:
+            p = ""
+        if p.startswith(cfgdir):
+            emit("cache_remove", path=os.path.basename(p))
+            if maxd:
+                time.sleep(rng.random() * maxd)
+        return r
+
     builtins.open = open_
     json.load = load
     json.dump = dump
     os.makedirs = makedirs
+    os.remove = remove_
+    os.unlink = remove_
 
 
 # ----------------------------------------------------------------------------- id allocation log (C17)
